@@ -200,7 +200,7 @@ fn main() {
         } else {
             // keep the power affordable for the monitor: bits(a) * n bounded
             let base = random_ibig(&mut rng, 3);
-            let bits = (base.as_sign_words().1.len() * 64).max(1);
+            let bits = (words_to_bytes(base.as_sign_words().1).len() * 8).max(1); // independent of the word size
             let n = rng.below((4096 / bits) as u64 + 2) as usize;
             run_case(&mut log, "pow", lt, lt, &base, &base, n, "rnd");
         }
